@@ -153,6 +153,21 @@ def h08_range(pa, pb, ca, cb, nparts):
     assert out == want
 
 
+def h08_number(x, n, e10):
+    """a non-integer number literal is printed positionally and denotes the same decimal (digits and magnitude)"""
+    out = render([Node(AST_node_type=17, AST_number_node_decimal_high=0, AST_number_node_decimal_low=0, AST_number_node_number=x)])
+    r = repr(x)
+    if "e" not in r:
+        assert out == r
+        return
+    mant = r.split("e")[0].replace(".", "")
+    if e10 > 0:
+        want = mant + "0" * (e10 - (n - 1))
+    else:
+        want = "0." + "0" * (-e10 - 1) + mant
+    assert out == want
+
+
 NAME = [(65, 90), (97, 122), (32, 32), (48, 57)]          # letters, digits, space: no ':' or '(' in a name part
 OPER = None                                                # operands: any Unicode scalar values
 
@@ -185,4 +200,13 @@ HARNESSES = [
             dict(pa=StrDom(2, NAME), pb=StrDom(1, NAME), ca=StrDom(2, NAME), cb=StrDom(2, NAME), nparts=Cases([0, 1, 2])),
             bounds="range end points with 0, 1 (table) or 2 (sheet, table) qualifying parts; names/cells 1-2 symbolic alphanumeric characters"),
 ]
+def _num(n, e):
+    from pysym.api import DecFloatDom
+    return Harness(f"H08-number-n{n}-e{e}", h08_number, dict(x=DecFloatDom(n, e, signed=False), n=Cases([n]), e10=Cases([e])),
+                   bounds=f"every positive float whose shortest decimal form has {n} significant digits (symbolic) and exponent {e}",
+                   stubs=["repr(float): CPython's shortest-digits 'r' format on the decimal-defined float"])
+
+
+_NUMS = [(n, e) for n in (1, 2, 5) for e in (-7, -5, -4, 0, 3, 15, 16, 17, 21)]
+HARNESSES += [_num(n, e) for n, e in _NUMS]
 PROPERTY = "C08"
